@@ -138,11 +138,12 @@ def run(ctx):
     if "Serialisable" not in u.violated:
         raise MachineryFault("Serial.tla without the lock is still serialisable: the model is vacuous")
     pm_files = []
-    plans = [(2, 1, False), (3, 2, False), (2, 2, True)] if quick else \
-            [(2, 1, False), (2, 3, False), (3, 2, False), (4, 2, False), (4, 3, False), (2, 2, True), (3, 3, True), (4, 1, True)]
-    for (p, k, nested) in plans:
-        pm = ctx.tlc("Plugins", defines={"P": str(p), "K": str(k), "Nested": "TRUE" if nested else "FALSE"}, timeout=600,
-                     tag="plugins P=%d K=%d nested=%s" % (p, k, nested))
+    plans = [(2, 1, False, "{}"), (3, 2, False, "{}"), (2, 2, True, "{}"), (4, 1, False, "{1, 2}"), (3, 1, False, "{1}")] if quick else \
+            [(2, 1, False, "{}"), (2, 3, False, "{}"), (3, 2, False, "{}"), (4, 2, False, "{}"), (4, 3, False, "{}"), (2, 2, True, "{}"),
+             (3, 3, True, "{}"), (4, 1, True, "{}"), (4, 1, False, "{1, 2}"), (3, 1, False, "{1}"), (4, 2, False, "{1, 2, 3}"), (4, 2, True, "{2}")]
+    for (p, k, nested, fails) in plans:
+        pm = ctx.tlc("Plugins", defines={"P": str(p), "K": str(k), "Nested": "TRUE" if nested else "FALSE", "Fails": fails}, timeout=600,
+                     tag="plugins P=%d K=%d nested=%s fails=%s" % (p, k, nested, fails))
         if pm.violated:
             raise MachineryFault("Plugins.tla (synchronised, wait first) violates %s" % pm.violated)
         pm_files.append(pm.beh_path)
@@ -198,13 +199,18 @@ def run(ctx):
         for f in pm_files:
             for line in open(f):
                 w = json.loads(line)
-                key = (w["p"], w["k"], w.get("nested"))
+                key = (w["p"], w["k"], w.get("nested"), json.dumps(w.get("fails")))
                 if key in seen:
                     continue
                 seen.add(key)
                 o.write(line)
-    plug_out = ctx.harness(vh, ["plugins", "-plugdir", plugdir, "-batch", "100", "-repeat", "3" if quick else "10"],
-                           stdin_path=pw, env=env, out_name="plug_res.jsonl", timeout=1800)
+    plug_outs = []
+    for gmp in ("1", "2", ""):           # fewer CPUs than plugins, and the default
+        e3 = dict(env)
+        if gmp:
+            e3["GOMAXPROCS"] = gmp
+        plug_outs.append(ctx.harness(vh, ["plugins", "-plugdir", plugdir, "-batch", "100", "-repeat", "2" if quick else "6"],
+                                     stdin_path=pw, env=e3, out_name="plug_res_%s.jsonl" % (gmp or "d"), timeout=1800))
 
     # ---- trace validation
     runs = [r for r in gated + free if r[0] is not None and os.path.exists(r[1]) and os.path.exists(r[2])]
@@ -225,7 +231,8 @@ def run(ctx):
                 r.setdefault("drift", []).append({"obs": "mutual-exclusion", "detail": "lock events are not a behaviour of the locked handler"})
             r["mismatch"] = mm
             ctx.add_result(r)
-    ctx.add_results(plug_out)
+    for po in plug_outs:
+        ctx.add_results(po)
 
     # ---- race detector
     reps = race_reports(ctx, racedir + "/r*")
